@@ -256,11 +256,12 @@ def _worker(batch):
 
 def run_real_parallel(cases):
     """run the implementation on all cases (forked workers; results in order)"""
+    global _RUNAWAYS
     idx_cases = list(enumerate(cases))
     if len(cases) < 400:
+        _RUNAWAYS = None
         return _worker(idx_cases)
     import multiprocessing as mp
-    global _RUNAWAYS
     _RUNAWAYS = mp.get_context("fork").Value("i", 0)
     nproc = min(16, os.cpu_count() or 4)
     size = max(50, min(500, len(cases) // (nproc * 4) + 1))
